@@ -332,3 +332,97 @@ def write_script(path, seed, executions, faults=True, tail_prob=0.7):
         for ln in lines:
             f.write(json.dumps(ln) + "\n")
     return len(lines)
+
+
+# ---------------------------------------------------------------------------------------------
+# hostile byte streams (property C04): well-formed PDUs with hostile field values, every length-field
+# pathology per type, truncation at every byte, Error Reports with inconsistent inner lengths, noise
+
+NATURAL = {"serial_notify": 12, "cache_response": 8, "ipv4": 20, "ipv6": 32, "eod": 24, "cache_reset": 8, "router_key": 123,
+           "serial_query": 12, "reset_query": 8}
+
+
+def hostile_frame(rnd, c):
+    v = c.v
+    k = rnd.choice(["fields4", "fields6", "key", "eodiv", "len", "len", "errpdu", "errpdu", "type", "raw"])
+    if k == "fields4":
+        return {"t": "ipv4", "v": v, "flags": rnd.choice([0, 1, 1, 2, 255]), "len_": rnd.choice([0, 1, 24, 32, 33, 128, 200, 255]),
+                "max": rnd.choice([0, 1, 24, 32, 33, 255]), "zero": rnd.choice([0, 1, 255]), "pfx": "%08x" % rnd.getrandbits(32),
+                "asn": str(rnd.choice([0, 1, U32])), "res": rnd.choice([0, 0, 65535])}
+    if k == "fields6":
+        return {"t": "ipv6", "v": v, "flags": rnd.choice([0, 1, 1, 3]), "len_": rnd.choice([0, 1, 64, 127, 128, 129, 255]),
+                "max": rnd.choice([0, 64, 128, 129, 255]), "zero": rnd.choice([0, 7]), "pfx": "%032x" % rnd.getrandbits(128),
+                "asn": str(rnd.choice([0, 1, U32]))}
+    if k == "key":
+        return {"t": "router_key", "v": v, "flags": rnd.choice([0, 1, 2, 255]), "zero": rnd.choice([0, 9]), "asn": str(rnd.getrandbits(32)),
+                "ski": rnd.randrange(30), "spki": rnd.randrange(30)}
+    if k == "eodiv":
+        return c.eod(refresh=str(rnd.choice([0, 1, U32, 2147483648])), retry=str(rnd.choice([0, U32, 7201])), expire=str(rnd.choice([0, 599, U32])))
+    if k == "len":
+        t = rnd.choice(list(NATURAL))
+        nat = NATURAL[t]
+        f = {"t": t, "v": v, "sess": c.sess, "sn": "1", "flags": 1, "len_": 8, "max": 8, "pfx": "0a000000", "asn": "1", "ski": 1, "spki": 1}
+        f["len"] = rnd.choice([0, 1, 7, 8, 9, nat - 1, nat + 1, nat + 4, 3248, 3249, 4000, 65535, 2147483648, U32])
+        return f
+    if k == "errpdu":
+        f = {"t": "error", "v": rnd.choice([v, 0, 1, 2]), "code": rnd.choice([0, 1, 2, 3, 4, 5, 6, 7, 8, 255, 65535]),
+             "enc": rnd.choice(["", "0102000000000008", "00" * 40]), "txt": rnd.choice(["", "x", "y" * 30])}
+        w = rnd.random()
+        if w < 0.3:
+            f["enclen"] = rnd.choice([U32, 4294967280, 2147483648, 65536, 3233, 1, 7])
+        elif w < 0.5:
+            f["txtlen"] = rnd.choice([U32, 2147483648, 1, 255, 3000])
+        elif w < 0.7:
+            f["len"] = rnd.choice([8, 12, 15, 16, 17, 20, 3248, 3249])
+        return f
+    if k == "type":
+        return {"t": "unknown", "tn": rnd.choice([5, 11, 12, 127, 128, 254, 255]), "v": v, "len": rnd.choice([8, 8, 12, 20, 100])}
+    n = rnd.choice([8, 8, 12, 20, 32, 64])
+    raw = bytearray(rnd.getrandbits(8) for _ in range(n))
+    if rnd.random() < 0.7:       # keep the stream framed: the length field announces exactly these bytes
+        raw[4:8] = n.to_bytes(4, "big")
+    return {"t": "raw", "hex": raw.hex()}
+
+
+def gen_hostile_execution(rnd, lines):
+    c = Cache(rnd, rnd.choice([1, 1, 0]))
+    cfg = {"refresh": "30", "expire": "600", "retry": "1", "mode": rnd.choice(["ignore_any", "accept_any", "min_max", "ignore_on_failure"]),
+           "others": [rec4(rnd), reck(rnd)], "t0": rnd.randrange(1000)}
+    lines.append({"new": cfg})
+    for i in range(rnd.randrange(3, 9)):
+        if rnd.random() < 0.3:
+            c.mutate()
+
+        def corrupt(items, base):
+            items = [dict(x) for x in items]
+            w = rnd.random()
+            if w < 0.55:                       # hostile frames spliced into an otherwise correct answer
+                for _ in range(rnd.randrange(1, 4)):
+                    p = rnd.randrange(0, len(items) + 1)
+                    items.insert(p, {"f": hostile_frame(rnd, c)})
+            elif w < 0.8:                      # truncation: the stream ends inside a frame
+                p = rnd.randrange(0, len(items))
+                items[p]["cut"] = rnd.randrange(0, 40)
+                items[p]["cutkind"] = rnd.choice(["err", "closed", "timeout"])
+                items = items[:p + 1]
+            else:                              # hostile frames while the client is established (after End of Data)
+                items = items + [{"tick": rnd.randrange(1, 20)}] + [{"f": hostile_frame(rnd, c)} for _ in range(rnd.randrange(1, 4))]
+            return items
+        ex = {"alts": c.alts(corrupt)}
+        if rnd.random() < 0.5:
+            ex["keepopen"] = 1
+        lines.append({"ex": ex})
+    for _ in range(3):
+        lines.append({"ex": {"alts": c.alts()}})
+    lines.append({"run": True})
+
+
+def write_hostile_script(path, seed, executions):
+    rnd = random.Random(seed * 7919 + 13)
+    lines = []
+    for _ in range(executions):
+        gen_hostile_execution(rnd, lines)
+    with open(path, "w") as f:
+        for ln in lines:
+            f.write(json.dumps(ln) + "\n")
+    return len(lines)
